@@ -1,1 +1,27 @@
-(* placeholder: replaced when the proofs land *)
+(* C13 -- Partition classes are label-independent, equitable and respect symmetry.
+   Only statements; proofs are in Proofs/. *)
+From Coq Require Import List NArith ZArith Permutation.
+Require Import Base Mol Partition MolProofs SameMol.
+
+(* The class of an atom does not depend on how the molecule is numbered, in which order atoms and
+   bonds are listed, how bonds are oriented, or on any non-identity data: for two descriptions
+   related by SameMol f, corresponding atoms (label a <-> f a) get the same class, and the
+   refinement succeeds for one description exactly when it succeeds for the other. *)
+Theorem classes_label_independent :
+  forall (P B P' B' : Type) (f : N -> N) (m : mol P B) (m' : mol P' B'),
+    wfg m -> SameMol f m m' ->
+    match classes m, classes m' with
+    | Some r, Some r' => forall x x', In x (atoms r) -> In x' (atoms r') -> lbl x' = f (lbl x) -> part x' = part x
+    | None, None => True
+    | _, _ => False
+    end.
+Proof. exact (@SameMol.classes_label_independent). Qed.
+Print Assumptions classes_label_independent.
+
+(* Two atoms that a symmetry of the molecule maps onto each other are in the same class. *)
+Theorem classes_respect_automorphisms :
+  forall (P B : Type) (m : mol P B) (f : N -> N) (r : mol P B),
+    wfg m -> SameMol f m m -> classes m = Some r ->
+    forall x x', In x (atoms r) -> In x' (atoms r) -> lbl x' = f (lbl x) -> part x' = part x.
+Proof. exact (@SameMol.classes_respect_automorphisms). Qed.
+Print Assumptions classes_respect_automorphisms.
